@@ -33,7 +33,7 @@ func init() {
 		Check:           c14Check,
 		DistinctClasses: []string{"class"},
 		MinEvaluations:  func(tier string) int64 { return 10000 },
-		RequiredCounts:  []string{"returned_values", "returned_error", "defect_rejected", "coerced_single_value", "defaults_applied"},
+		RequiredCounts:  []string{"keyword_text_defaults_applied", "empty_list_defaults_applied", "second_calls_after_caller_mutation", "returned_values", "returned_error", "defect_rejected", "coerced_single_value", "defaults_applied"},
 	})
 }
 
@@ -190,7 +190,7 @@ func (g *c14Gen) value(t *ast.Type, depth int) interface{} {
 		}
 		if g.maybeDefect("unknown-field") != "" {
 			g.applied = "unknown-field"
-			out[r.Pick("nope", "X", "xx")] = 1
+			out[r.Pick("nope", "X", "xx", "__meta", "__", "__Typename", "__typenam", "_typename")] = 1
 		}
 		if g.maybeDefect("missing-required-field") != "" {
 			if _, has := out["x"]; has {
@@ -427,6 +427,9 @@ func c14Run(x *core.Ctx) {
 				if !supplied && (i/5)%6 == 1 && strings.Contains(ts, "[") {
 					c.Set("default", "single") // a single value written where a list is declared
 				}
+				if b := strings.Trim(ts, "[]!"); !supplied && (i/5)%6 == 4 && b == "String" {
+					c.Set("default", "keyword-text") // a string whose text is a keyword stays a string
+				}
 				if !supplied && (i/5)%6 == 5 && strings.HasPrefix(ts, "[") {
 					c.Set("default", "empty") // an empty list literal: the value is an empty list, not null
 				}
@@ -589,6 +592,10 @@ func c14Check(x *core.Ctx, c *core.Case) {
 		if c.Get("default") == "empty" {
 			decl = "$v: " + ts + " = []"
 		}
+		if c.Get("default") == "keyword-text" {
+			kw := []string{`"null"`, `"true"`, `"false"`}[len(ts)%3]
+			decl = "$v: " + ts + " = " + strings.Repeat("[", depth) + kw + strings.Repeat("]", depth)
+		}
 		if c.Get("default") == "huge" {
 			decl = "$v: " + ts + " = " + strings.Repeat("[", depth) + "99999999999999999999" + strings.Repeat("]", depth)
 		}
@@ -678,11 +685,37 @@ func c14Check(x *core.Ctx, c *core.Case) {
 		if ok, why := conforms(schema, vd.Type, got, "$v"); !ok {
 			x.Violate("nonconforming-output(default:"+wrapPattern(ts)+")", why, "a value of "+ts)
 		}
+		if c.Get("default") == "keyword-text" {
+			x.Count("keyword_text_defaults_applied")
+			kw := []string{"null", "true", "false"}[len(ts)%3]
+			inner := got
+			for {
+				l, ok := inner.([]interface{})
+				if !ok || len(l) != 1 {
+					break
+				}
+				inner = l[0]
+			}
+			if str, ok := inner.(string); !ok || str != kw {
+				x.Violate("default-not-applied(keyword-text)", fmt.Sprintf("%#v", got), "the string "+strconv.Quote(kw)+" at the declared depth")
+			}
+		}
 		if c.Get("default") == "empty" {
 			x.Count("empty_list_defaults_applied")
 			if rv := reflect.ValueOf(got); got == nil || rv.Kind() != reflect.Slice || rv.Len() != 0 {
 				x.Violate("default-not-applied(empty-list)", fmt.Sprintf("%#v", got), "an empty list, the declared default")
 			}
+		}
+		// what the caller does with the returned value is its own business: a second call for the same operation gives the
+		// declared default again, whatever happened to the first result
+		before := fmt.Sprintf("%#v", got)
+		mutateInPlace(got)
+		if out2, err2 := validator.VariableValues(schema, op, map[string]interface{}{}); err2 != nil {
+			x.Violate("default-rejected(second-call)", err2.Error(), "the default value of "+decl)
+		} else if again := fmt.Sprintf("%#v", out2["v"]); again != before {
+			x.Violate("default-not-applied(second-call)", again, before)
+		} else {
+			x.Count("second_calls_after_caller_mutation")
 		}
 	case !isSupplied:
 		if present && got != nil {
@@ -732,4 +765,21 @@ func outReason(why string) string {
 		return "enum"
 	}
 	return "kind"
+}
+
+// mutateInPlace scribbles over a returned value the way a resolver might (sets map keys, overwrites list items).
+func mutateInPlace(v interface{}) {
+	switch t := v.(type) {
+	case map[string]interface{}:
+		for k, e := range t {
+			mutateInPlace(e)
+			t[k] = "OVERWRITTEN"
+		}
+		t["addedByCaller"] = 1000000
+	case []interface{}:
+		for i, e := range t {
+			mutateInPlace(e)
+			t[i] = "OVERWRITTEN"
+		}
+	}
 }
